@@ -107,6 +107,7 @@ package logic
 // contains what the merge buffer holds).
 //@ func (*Group).broadcastByRtmpMsg
 //@   props C01 C05
+//@   safety C05
 //@   assert after "group.rtmpMergeWriter.Flush()"@1 [C01.fresh.flush] session.IsFresh
 //@ end
 
